@@ -328,6 +328,16 @@ package app
 //@   ghostset after Open: cofErr = result1
 //@   top-ensures cofBad ==> err == cofErr
 
+// C08 (content sniffing): the first bytes of a file are read with ReadAll over a 512-byte limiter - an empty or short
+// file is not an error (a reader that reports EOF for an empty file would turn it into 404).
+//@ func readFileHeader(f, compressed) r, err
+//@   props C08
+//@   abstract
+//@   noinline
+//@   panics
+//@   assert before ReadAll: arg0 != nil && lr.N == 512
+//@   assert before Seek: arg1 == 0 && arg2 == 0
+
 // C08 (directory requests): a listing is generated only when the handler was configured to generate index pages,
 // and index files are opened with the same compression decision as the request.
 //@ immutable fsHandler.generateIndexPages :: configuration copied from FS when the handler is built
